@@ -853,12 +853,13 @@ func (c *cfg) makeCoherent() {
 func runC14(seed uint64, n int, tier string, outDir string) []*Stats {
 	r := NewRng(seed)
 	st := NewStats("c14", seed)
-	cf := NewCoqFile("From V Require Import Common.Base C14.Compat C14.Spec C14.LowerGraph C14.Harness.")
+	cf := NewCoqFile("From V Require Import Common.Base C14.Compat C14.Spec C14.LowerGraph C14.Css C14.Harness.")
 
 	tableCases(r, st, cf, n)
 	selfTest(st)
 	corpus(st)
 	glue(r, st, cf, n, tier)
+	cssSide(r, st, cf, n)
 
 	st.Finish("seeded generator (splitmix64 from VERIF_SEED): every ES year 2012..2028 + random engine/version constraint maps for UnsupportedJSFeatures; random 64-bit triples for ApplyOverrides; random target/engine/supported configurations through the validateFeatures/validateSupported/applyOptionDefaults hooks; one probe per feature and syntactic position, nested wrapper/expression combinations and minifier baits through api.Transform and api.Build (bundle with ESM+CommonJS graph, esm/cjs/iife, minify, keep-names, TypeScript), each evaluated with the detector and the second-pass oracle. distinct_nontrivial = distinct (kind,input,configuration) whose configuration leaves at least one feature unsupported or overridden")
 	if err := os.WriteFile(filepath.Join(outDir, "c14_cases.v"), []byte(cf.String()), 0o644); err != nil {
